@@ -593,7 +593,7 @@ class Gen:
                 g = self.goal(-1, rng.choice([1, 2, 2, 3]))
             vs = term_vars(g, [])
             r = V('R')
-            tmpl = S('v', *[V(x) for x in vs])
+            tmpl = S('v', *[V(x) for x in vs]) if vs else A('v')
             eq = S('=', r, tmpl)
             body = S(',', eq, g) if rng.random() < 0.5 else S(',', g, eq)
             qs.append((S("q%d_%s" % (k, self.cid), r), body))
@@ -654,7 +654,7 @@ def directed_cases():
         for k, g in enumerate(goals):
             g = ren(g)
             vs = term_vars(g, [])
-            qs.append((S("q%d_%s" % (k, cid), R), S(',', S('=', R, S('v', *[V(x) for x in vs])), g)))
+            qs.append((S("q%d_%s" % (k, cid), R), S(',', S('=', R, S('v', *[V(x) for x in vs]) if vs else A('v')), g)))
         out.append(make_case(cid, cl, qs, {"family": "directed", "features": [name]}))
 
     t = lambda x: Pd('t', x)
@@ -737,60 +737,92 @@ def rename_preds(t, cid):
 
 # ------------------------------------------------------------------ running the model (guarded)
 
-def run_model_guarded(lines, per_line_timeout=20.0, jobs=6):
-    """runs driver lines in `jobs` processes; a line that does not answer within the timeout (the
-    interpreter has no step budget, only a depth budget) is reported as `oof timeout` and the process
-    is restarted after it."""
-    chunks = [lines[i::jobs] for i in range(jobs)]
+def _run_guarded(binary, cases, per_line_timeout, env=None):
+    """feeds the lines of `cases` (lists of lines, a case stays together) to one line-protocol process;
+    a line that does not answer within the timeout gets `hang`, the process is killed and restarted
+    with the NEXT case (the rest of the hanging case is marked `skipped`)."""
+    import threading
+    res = {}
+    k = 0
+    e = dict(os.environ)
+    if env:
+        e.update(env)
+    while k < len(cases):
+        lines = [(ci, l) for ci in range(k, len(cases)) for l in cases[ci]]
+        p = subprocess.Popen([binary], stdin=subprocess.PIPE, stdout=subprocess.PIPE,
+                             stderr=subprocess.DEVNULL, text=True, bufsize=1, env=e, errors="replace")
 
-    def work(ch):
-        res = {}
-        rest = list(ch)
-        while rest:
-            p = subprocess.Popen([core.DRIVER_BIN], stdin=subprocess.PIPE, stdout=subprocess.PIPE,
-                                 stderr=subprocess.DEVNULL, text=True, bufsize=1)
-            import threading
-
-            def feed(proc=p, data="\n".join(rest) + "\n"):
-                try:
-                    proc.stdin.write(data)
-                    proc.stdin.close()
-                except Exception:
-                    pass
-            th = threading.Thread(target=feed, daemon=True)
-            th.start()
-            done = 0
-            ok = True
-            while done < len(rest):
-                r, _, _ = select.select([p.stdout], [], [], per_line_timeout)
-                if not r:
-                    ok = False
-                    break
-                l = p.stdout.readline()
-                if not l:
-                    ok = False
-                    break
-                i, _, v = l.rstrip("\n").partition("\t")
-                res[i] = v
-                done += 1
-            if ok:
-                p.wait()
+        def feed(proc=p, data="\n".join(l for _, l in lines) + "\n"):
+            try:
+                proc.stdin.write(data)
+                proc.stdin.close()
+            except Exception:
+                pass
+        threading.Thread(target=feed, daemon=True).start()
+        done = 0
+        ok = True
+        while done < len(lines):
+            r, _, _ = select.select([p.stdout], [], [], per_line_timeout)
+            l = p.stdout.readline() if r else ""
+            if not l:
+                ok = False
                 break
+            i, _, v = l.rstrip("\n").partition("\t")
+            if i != core.line_id(lines[done][1]):
+                continue          # noise on stdout (warnings): not a result line
+            res[i] = v
+            done += 1
+        try:
             p.kill()
-            p.wait()
-            if done < len(rest):
-                res[core.line_id(rest[done])] = "oof timeout"
-            rest = rest[done + 1:]
-        return res
+        except Exception:
+            pass
+        p.wait()
+        if ok:
+            break
+        ci = lines[done][0]
+        res[core.line_id(lines[done][1])] = "hang"
+        for cj, l in lines[done + 1:]:
+            if cj != ci:
+                break
+            res[core.line_id(l)] = "skipped"
+        k = ci + 1
+    return res
 
+
+def run_guarded(binary, cases, per_line_timeout, jobs, env=None):
+    chunks = [cases[i::jobs] for i in range(jobs)]
     out = {}
     with ThreadPoolExecutor(max_workers=jobs) as ex:
-        for r in ex.map(work, chunks):
+        for r in ex.map(lambda ch: _run_guarded(binary, ch, per_line_timeout, env) if ch else {}, chunks):
             out.update(r)
     return out
 
 
+def run_model_guarded(lines, per_line_timeout=15.0, jobs=6):
+    """the interpreter has a depth budget but no step budget: a line that takes too long is reported
+    as `oof timeout`."""
+    out = run_guarded(core.DRIVER_BIN, [[l] for l in lines], per_line_timeout, jobs)
+    return {k: ("oof timeout" if v in ("hang", "skipped") else v) for k, v in out.items()}
+
+
+def run_impl_guarded(cases, per_line_timeout=25.0, jobs=8, env=None):
+    return run_guarded(core.HARNESS_BIN, cases, per_line_timeout, jobs, env)
+
+
 # ------------------------------------------------------------------ judge
+
+IMPL_ENV = {"SV_TIMEOUT_MS": "5000"}
+
+
+def impl_items2(res):
+    """like impl_items, but `{}` / `true` (R left unbound) count as the answer `_0`."""
+    if res is None:
+        return None
+    if res == "hang":
+        return 'hang'
+    r = " ;; ".join("{R=_U}" if x in ("{}", "true") else x for x in split_items(res.strip()))
+    return impl_items(r)
+
 
 def arith_multi_error(c):
     """does some arithmetic goal of the case contain two or more possible error sources?"""
@@ -815,12 +847,29 @@ def arith_multi_error(c):
     return any(walk(b) for _h, b in c["clauses"])
 
 
+ARITH_ERR = re.compile(r"'error'\('(instantiation_error|type_error'\('evaluable'|evaluation_error|type_error'\('integer')")
+LIST_GOAL = re.compile(r"'/'\('\.',2\)|'/'\(\[\],0\)|'type_error'\('callable',(\[|\"|'\.'\()")
+
+
 def is_arith_error(item):
-    return item[0] == 'exc' and re.match(r"'error'\('(instantiation_error|type_error'\('evaluable'|evaluation_error)", item[1]) is not None
+    return item[0] == 'exc' and ARITH_ERR.match(item[1]) is not None
+
+
+def out_of_domain(mi, ii):
+    """a list used as a goal or inside an arithmetic expression: Scryer treats lists specially there
+    (type_error(callable, List); evaluation of '.'/2), the reference follows ISO to the letter
+    (existence_error / type_error(evaluable, '.'/2)). Not compared (see ASSUMPTIONS)."""
+    for its in (mi[0], ii[0] if isinstance(ii, tuple) else []):
+        for x in its:
+            if x[0] == 'exc' and LIST_GOAL.search(x[1]):
+                return True
+    return False
 
 
 def compare(mi, ii):
     """model items/trunc vs implementation items/trunc -> None if they agree, else (kind, detail)."""
+    if ii == 'hang':
+        return "no-termination", "the implementation did not answer (the reference terminates)"
     mits, mtr = mi
     iits, itr = ii
     n = min(len(mits), len(iits))
@@ -832,28 +881,217 @@ def compare(mi, ii):
                 kind = "different-exception"
             else:
                 kind = "different-answer"
-            return kind, "item %d: model %s, implementation %s" % (k, mits[k][1], iits[k][1])
+            return kind, "item %d: reference %s, implementation %s" % (k, mits[k][1], iits[k][1])
     if itr:
         # the implementation stopped after MAXA items (it may count a final `false` as an item)
         if len(iits) > len(mits):
-            return "extra-items", "implementation has %d items, model %d" % (len(iits), len(mits))
+            return "extra-items", "implementation has %d items, reference %d" % (len(iits), len(mits))
         if len(iits) < MAXA - 1 and len(iits) < len(mits):
             return "missing-items", "implementation truncated after %d items" % len(iits)
         return None
     if len(iits) != len(mits) or mtr:
         return ("missing-items" if len(iits) < len(mits) else "extra-items",
-                "implementation has %d items, model %d%s" % (len(iits), len(mits), "+" if mtr else ""))
+                "implementation has %d items, reference %d%s" % (len(iits), len(mits), "+" if mtr else ""))
     return None
 
 
+def judge_query(c, model_res, impl_res, loaded):
+    """-> ('agree'|'skip-arith'|'skip-domain'|'inconclusive', None) or ('problem', (kind, detail))."""
+    mi = model_items(model_res)
+    if mi is None or mi == 'oof':
+        return 'inconclusive', None
+    if loaded != "loaded":
+        return 'problem', ("load-failed", "consulting the program gave: %s" % loaded)
+    ii = impl_items2(impl_res)
+    if ii is None:
+        return 'problem', ("uninterpretable", "implementation result: %s" % impl_res)
+    if ii != 'hang' and out_of_domain(mi, ii):
+        return 'skip-domain', None
+    problem = compare(mi, ii)
+    if problem is None:
+        return 'agree', None
+    if problem[0] in ("different-exception", "answer-vs-exception") and arith_multi_error(c):
+        if any(is_arith_error(x) for x in (mi[0] + (ii[0] if ii != 'hang' else []))):
+            return 'skip-arith', None
+    return 'problem', problem
+
+
+# --- classification of a failing case by ISO-equivalent rewritings (each maps to one known defect class)
+
+CONTROL2 = (',', ';', '->')
+
+
+def has_top_cut(t):
+    """a cut at the control level of the goal term t (not inside call/N, \\+, findall, catch)."""
+    if t == CUT:
+        return True
+    if t[0] == 's' and t[1] in CONTROL2 and len(t[2]) == 2:
+        return has_top_cut(t[2][0]) or has_top_cut(t[2][1])
+    return False
+
+
+def map_goals(t, f):
+    """apply f bottom-up to every sub-goal of a body term (goal positions only)."""
+    if t[0] == 's':
+        n, args = t[1], t[2]
+        if n in CONTROL2 and len(args) == 2:
+            t = ('s', n, [map_goals(args[0], f), map_goals(args[1], f)])
+        elif n in ('\\+', 'once', 'call') and len(args) == 1:
+            t = ('s', n, [map_goals(args[0], f)])
+        elif n == 'catch' and len(args) == 3:
+            t = ('s', n, [map_goals(args[0], f), args[1], map_goals(args[2], f)])
+        elif n == 'findall' and len(args) == 3:
+            t = ('s', n, [args[0], map_goals(args[1], f), args[2]])
+    return f(t)
+
+
+def rw_cond_call(t):
+    """(C -> T) with a cut at the control level of C  =>  (call(C) -> T): identical by ISO 7.8.8
+    (the cut in the condition is local to the condition); theorem C07_cond_cut_local."""
+    if t[0] == 's' and t[1] == '->' and len(t[2]) == 2 and has_top_cut(t[2][0]):
+        return S('->', S('call', t[2][0]), t[2][1])
+    return t
+
+
+INLINED_TESTS = set(TYPE_TESTS) - {'callable'}
+
+
+def rw_test_call(t):
+    """type test T(X) => call(T, X): identical by the definition of call/N; takes the test out of
+    the inlined-builtin path of the code generator."""
+    if t[0] == 's' and t[1] in INLINED_TESTS and len(t[2]) == 1:
+        return S('call', A(t[1]), t[2][0])
+    return t
+
+
+REWRITES = [
+    ("cut-in-if-condition-not-local", [rw_cond_call]),
+    ("inlined-type-test-clobbers-live-register", [rw_test_call]),
+    ("cut-in-if-condition-not-local+inlined-type-test-clobbers-live-register", [rw_cond_call, rw_test_call]),
+]
+
+
+def rewrite_case(c, k, fs, cid):
+    allc = c["clauses"]
+    nq = c["nq"]
+    cl = []
+    for h, b in allc[:len(allc) - nq] + [allc[len(allc) - nq + k]]:
+        for f in fs:
+            b = map_goals(b, f)
+        cl.append((h, b))
+    return make_case(cid, cl[:-1], [cl[-1]], {"family": "rewrite"})
+
+
+def eval_cases(cases):
+    """run single cases completely (model, then implementation where the model decides)."""
+    model = run_model_guarded([l for c in cases for l in c["model"]])
+    run = [c for c in cases if all(not (model.get(q) or "oof").startswith("oof") for q in c["qids"])]
+    impl = run_impl_guarded([c["impl"] for c in run], per_line_timeout=12.0, env=IMPL_ENV) if run else {}
+    return model, impl
+
+
+def classify(failing):
+    """failing: list of (case, k, problem, model_result). Returns {index: defect name}: the first
+    rewriting that changes the program, leaves the reference result unchanged and makes the
+    implementation agree with it."""
+    out = {}
+    todo = list(range(len(failing)))
+    for ri, (name, fs) in enumerate(REWRITES):
+        if not todo:
+            break
+        cs = {}
+        for i in todo:
+            c, k, _p, _m = failing[i]
+            cid = "w%d_%d_%s" % (ri, i, c["id"])
+            rc = rewrite_case(c, k, fs, cid)
+            if rc["text"] != rewrite_case(c, k, [], cid)["text"]:
+                cs[i] = rc
+        if not cs:
+            continue
+        model, impl = eval_cases(list(cs.values()))
+        still = []
+        for i in todo:
+            if i not in cs:
+                still.append(i)
+                continue
+            rc = cs[i]
+            q = rc["qids"][0]
+            same_ref = model_items(model.get(q)) == model_items(failing[i][3])
+            st, _ = judge_query(rc, model.get(q), impl.get(q), impl.get(rc["id"] + "_l"))
+            if same_ref and st == 'agree':
+                out[i] = name
+            else:
+                still.append(i)
+        todo = still
+    return out
+
+
+# --- shrinking (for defects no rewriting explains)
+
+def goal_variants(t):
+    """smaller goals obtained from t by one local simplification."""
+    out = []
+    if t != TRUE:
+        out.append(TRUE)
+    if t[0] == 's':
+        n, args = t[1], t[2]
+        if n in CONTROL2 and len(args) == 2:
+            out += [args[0], args[1]]
+            out += [('s', n, [v, args[1]]) for v in goal_variants(args[0])]
+            out += [('s', n, [args[0], v]) for v in goal_variants(args[1])]
+        elif n in ('\\+', 'once', 'call') and len(args) == 1:
+            out.append(args[0])
+            out += [('s', n, [v]) for v in goal_variants(args[0])]
+        elif n == 'catch' and len(args) == 3:
+            out.append(args[0])
+            out += [('s', n, [v, args[1], args[2]]) for v in goal_variants(args[0])]
+            out += [('s', n, [args[0], args[1], v]) for v in goal_variants(args[2])]
+        elif n == 'findall' and len(args) == 3:
+            out += [('s', n, [args[0], v, args[2]]) for v in goal_variants(args[1])]
+    return out
+
+
+def shrink(c, k, max_rounds=14, max_cands=40):
+    allc = c["clauses"]
+    nq = c["nq"]
+    prog = list(allc[:len(allc) - nq])
+    q = allc[len(allc) - nq + k]
+    best = None
+    for rnd in range(max_rounds):
+        cands = []
+        for i in range(len(prog)):
+            cands.append((prog[:i] + prog[i + 1:], q))
+        for i, (h, b) in enumerate(prog):
+            for v in goal_variants(b):
+                cands.append((prog[:i] + [(h, v)] + prog[i + 1:], q))
+        for v in goal_variants(q[1]):
+            if 'R' in term_vars(v, []):
+                cands.append((prog, (q[0], v)))
+        cands = cands[:max_cands]
+        if not cands:
+            break
+        cs = [make_case("s%d_%d_%s" % (rnd, j, c["id"]), p2, [q2]) for j, (p2, q2) in enumerate(cands)]
+        model, impl = eval_cases(cs)
+        found = None
+        for (p2, q2), sc in zip(cands, cs):
+            qid = sc["qids"][0]
+            st, pr = judge_query(sc, model.get(qid), impl.get(qid), impl.get(sc["id"] + "_l"))
+            if st == 'problem':
+                found = (p2, q2, sc, pr, model.get(qid), impl.get(qid))
+                break
+        if found is None:
+            break
+        prog, q = found[0], found[1]
+        best = found
+    return best
+
+
 def query_features(c, k):
-    """constructs reachable from query k (over-approximation: functors of the whole program)."""
     fs = set()
     for h, b in c["clauses"]:
         functors(b, fs)
-    ctl = sorted(f for f in fs if f in (",/2", ";/2", "->/2", "\\+/1", "call/1", "call/2", "call/3", "catch/3",
-                                        "findall/3", "throw/1", "!/0", "once/1", "is/2"))
-    return ctl
+    return sorted(f for f in fs if f in (",/2", ";/2", "->/2", "\\+/1", "call/1", "call/2", "call/3", "catch/3",
+                                         "findall/3", "throw/1", "!/0", "once/1", "is/2"))
 
 
 def run(ctx):
@@ -865,7 +1103,8 @@ def run(ctx):
     else:
         cases = [rebuild_case(c) for c in diff.load_corpus("C07")]
         cases += directed_cases()
-        n = 700 if tier == "quick" else 14000
+        n = 500 if tier == "quick" else 9000
+        n = int(os.environ.get("C07_N", n))
         cases += [gen_case(rng, "c%d" % i) for i in range(n)]
     # 1. the model first
     model = run_model_guarded([l for c in cases for l in c["model"]])
@@ -889,81 +1128,108 @@ def run(ctx):
             ic["impl"] = [c["impl"][0]] + [l for l in c["impl"][1:] if core.line_id(l) in keep]
             runnable.append(ic)
     # 2. the implementation on the decided queries
-    impl = core.run_impl_parallel([c["impl"] for c in runnable])
+    impl = run_impl_guarded([c["impl"] for c in runnable], per_line_timeout=12.0, env=IMPL_ENV)
     t_impl = time.time() - t_start - t_model
     retried = 0
     for c in runnable:
-        bad = [q for q in c["run_qids"] if impl_items(impl.get(q)) is None]
-        if bad or impl.get(c["id"] + "_l") != "loaded":
+        rs = [impl.get(c["id"] + "_l")] + [impl.get(q) for q in c["run_qids"]]
+        if any(r is None or r.startswith("timeout") or r.startswith("skipped") or r.startswith("abort") for r in rs) \
+                and not any(r == "hang" for r in rs if r):
             retried += 1
-            impl.update(core.run_impl(["R\t%s_r" % c["id"]] + c["impl"], env={"SV_TIMEOUT_MS": "60000"}))
+            impl.update(run_impl_guarded([c["impl"]], per_line_timeout=90.0, jobs=1, env={"SV_TIMEOUT_MS": "60000"}))
     # 3. judge
-    findings = []
     agree = 0
     evaluations = 0
     distinct = set()
     kinds = {"answers": 0, "no-answer": 0, "exception-only": 0, "answers-then-exception": 0, "truncated": 0}
     nans_hist = {}
     feat = {}
-    skipped_arith = 0
+    skipped = {"skip-arith": 0, "skip-domain": 0, "inconclusive": 0}
+    failing = []
     for c in runnable:
         for f in c.get("features", []):
             feat[f] = feat.get(f, 0) + 1
         loaded = impl.get(c["id"] + "_l")
+        poisoned = False
         for qid in c["run_qids"]:
             k = c["qids"].index(qid)
-            evaluations += 1
-            mi = model_items(model[qid])
-            ii = impl_items(impl.get(qid)) if loaded == "loaded" else None
             if rep is not None:
                 print("replay %s query %d\n%s" % (c["id"], k, c["text"]))
-                print("  model: %s" % model.get(qid))
-                print("  impl : %s (load: %s)" % (impl.get(qid), loaded))
-            if mi is None or mi == 'oof':
-                continue
-            mits, mtr = mi
-            na = sum(1 for x in mits if x[0] == 'ans')
-            ne = sum(1 for x in mits if x[0] == 'exc')
-            cat = "truncated" if mtr else ("no-answer" if not mits else "exception-only" if na == 0 else
-                                           "answers-then-exception" if ne else "answers")
-            kinds[cat] += 1
-            nans_hist[str(na)] = nans_hist.get(str(na), 0) + 1
-            if mits:
-                distinct.add((c["text"], k))
-            if ii is None:
-                problem = ("uninterpretable", "load: %s, result: %s" % (loaded, impl.get(qid)))
-            else:
-                problem = compare(mi, ii)
-            if problem and problem[0] in ("different-exception", "answer-vs-exception") and arith_multi_error(c):
-                # which of several errors inside one arithmetic expression is reported: not compared
-                a = [x for x in (mi[0] + (ii[0] if ii else [])) if is_arith_error(x)]
-                if a:
-                    skipped_arith += 1
-                    continue
-            if problem is None:
+                print("  reference     : %s" % model.get(qid))
+                print("  implementation: %s (load: %s)" % (impl.get(qid), loaded))
+            if poisoned:
+                continue         # the machine was discarded by an earlier hang/panic of this case
+            evaluations += 1
+            mi = model_items(model[qid])
+            if isinstance(mi, tuple):
+                mits, mtr = mi
+                na = sum(1 for x in mits if x[0] == 'ans')
+                ne = sum(1 for x in mits if x[0] == 'exc')
+                cat = "truncated" if mtr else ("no-answer" if not mits else "exception-only" if na == 0 else
+                                               "answers-then-exception" if ne else "answers")
+                kinds[cat] += 1
+                nans_hist[str(na)] = nans_hist.get(str(na), 0) + 1
+                if mits:
+                    distinct.add((c["text"], k))
+            st, problem = judge_query(c, model.get(qid), impl.get(qid), loaded)
+            if st == 'agree':
                 agree += 1
-                continue
-            sig = {"family": "prog", "kind": problem[0], "constructs": " ".join(query_features(c, k))}
-            stored = {"id": c["id"], "clauses": c["clauses"], "nq": c["nq"], "family": c.get("family"),
-                      "features": c.get("features"), "query": k, "text": c["text"],
-                      "model_result": model.get(qid), "impl_result": impl.get(qid)}
-            findings.append(core.Finding("violation", sig, "query %d of\n%s\n%s" % (k, c["text"], problem[1]), stored))
+            elif st == 'problem':
+                failing.append((c, k, problem, model.get(qid)))
+                r = impl.get(qid) or ""
+                if r == "hang" or r.startswith("panic"):
+                    poisoned = True
+            else:
+                skipped[st] += 1
+    # 4. classify the failing cases; shrink a few unexplained ones
+    findings = []
+    cls = classify(failing) if failing else {}
+    shrunk = 0
+    for i, (c, k, problem, mres) in enumerate(failing):
+        qid = c["qids"][k]
+        defect = cls.get(i)
+        detail = "query %d of\n%s\n%s\nreference     : %s\nimplementation: %s" % (
+            k, c["text"], problem[1], mres, impl.get(qid))
+        stored = {"id": c["id"], "clauses": c["clauses"], "nq": c["nq"], "family": c.get("family"),
+                  "features": c.get("features"), "query": k, "text": c["text"],
+                  "model_result": mres, "impl_result": impl.get(qid)}
+        if defect:
+            sig = {"family": "prog", "defect": defect}
+            detail += "\nthe difference disappears under the ISO-equivalent rewriting for: " + defect
+        else:
+            sig = {"family": "prog", "defect": "unclassified", "kind": problem[0],
+                   "constructs": " ".join(query_features(c, k))}
+            if shrunk < 3 and rep is None:
+                shrunk += 1
+                b = shrink(c, k)
+                if b is not None:
+                    p2, q2, sc, pr, mr, ir = b
+                    detail += "\n--- minimised:\n%s\n%s\nreference     : %s\nimplementation: %s" % (sc["text"], pr[1], mr, ir)
+                    stored["minimised"] = {"id": sc["id"], "clauses": sc["clauses"], "nq": 1, "text": sc["text"]}
+                    sig["kind"] = pr[0]
+                    sig["constructs"] = " ".join(query_features(sc, 0))
+        if rep is not None:
+            print("  PROBLEM %s: %s" % (sig, problem[1]))
+        findings.append(core.Finding("violation", sig, detail, stored))
     return {
         "evaluations": evaluations,
         "distinct_nontrivial": len(distinct),
         "rule": "random programs: 1-5 predicates (arity 0-3) x 1-4 clauses x 0-4 body goals (control nesting <= 3) over unification, type tests, integer arithmetic and comparison, !, ',', ;, ->, \\+, once, call/1..3 (partial goals and control constructs built at run time), variable goals, catch/throw, findall, functor/arg, undefined predicates, structural recursion helpers (append/member/length/countdown); 1-12 variables per clause, shared between head, body goals and control branches; 3 queries per program (direct calls and compound goals), each compiled as one more clause; plus 4 directed programs (cut in every position, many permanent variables, exceptions, meta-calls). non-trivial = the reference gives at least one answer or a ball; distinct by program text + query",
-        "samples": [{"program": c["text"], "model": [model.get(q) for q in c["qids"]],
-                     "impl": [impl.get(q) for q in c["qids"]]} for c in (runnable[4:6] + runnable[-2:])],
+        "samples": [{"program": c["text"], "reference": [model.get(q) for q in c["qids"]],
+                     "implementation": [impl.get(q) for q in c["qids"]]} for c in (runnable[4:6] + runnable[-2:])],
         "traces_validated_against_impl": agree,
-        "disagreements_checked": evaluations - agree,
+        "disagreements_checked": len(failing),
         "programs": len(cases),
         "queries_dropped_model_out_of_fuel_or_cyclic": oof,
         "queries_dropped_model_time_guard": oof_timeout,
-        "queries_not_compared_multiple_arith_errors": skipped_arith,
+        "queries_not_compared_multiple_arith_errors": skipped["skip-arith"],
+        "queries_not_compared_list_as_goal_or_expression": skipped["skip-domain"],
         "reference_result_kinds": kinds,
         "reference_answer_count_histogram": nans_hist,
         "goal_kinds_generated": feat,
         "cases_rerun_serially": retried,
+        "failing_queries_by_defect": {d: sum(1 for f in findings if f.sig.get("defect") == d)
+                                      for d in set(f.sig.get("defect") for f in findings)},
         "wall_seconds": round(time.time() - t_start, 1),
         "model_seconds": round(t_model, 1),
         "impl_seconds": round(t_impl, 1),
